@@ -5,6 +5,10 @@ VERIF = os.path.dirname(os.path.dirname(os.path.abspath(__file__)))
 ALL = ["C%02d" % i for i in range(1, 21)]
 
 CLAIMED = {
+ "C17": dict(
+    text="Generated disc pairs concentrated on the numerically hard region (centre distance within +-4 ulps of r1+r2 and |r1-r2|, equal and nearly equal radii, radii over six decades, axis-aligned / 3-4-5 / arbitrary directions) judged against the 50-digit mpmath lens area of the float inputs: totality, symmetry (1e-6 R^2), bounds, accuracy (1e-5 R^2).",
+    note="Trusted: mpmath at 50 digits, Fraction arithmetic for the case split. Radii in [1e-3, 1e3], |coordinates| <= 1e4.",
+    technique="property-based testing (Hypothesis) against a high-precision reference implementation", ref="4/C17"),
  "C07": dict(
     text="Generated posting scripts (clauses, implications, both at-most-one encodings, pseudo-Boolean inequalities with both ROBDD constructions, preceded by other managers' encodings in the same process) judged by model-set equality: for ALL assignments of the user variables, extendability to a model of SATManager.clauses (PySAT on an independent translation) must equal direct integer evaluation of the accepted constraints - both directions - followed by solve()/value()/evalexpr() checks. Sampling of scripts, exhaustive over assignments per script.",
     note="Trusted: the PySAT solver (cross-checked by brute force on small CNFs in a fixed fraction of cases) and the 20-line integer evaluator of the script. A posting that raises is a refusal.",
